@@ -418,6 +418,12 @@ def run_case(case_spec):
     STATE["case"] = rec
     try:
         try:
+            if case_spec.get("pre"):
+                # supplementary monitors a check attaches before the CLI runs (wrappers on internal names)
+                try:
+                    exec(compile(case_spec["pre"], "<vsds-pre>", "exec"), {"STATE": STATE, "rec": rec, "case": case_spec})  # noqa: S102
+                except Exception as e:  # noqa: BLE001 - a monitor that cannot attach reports it, never fails the run
+                    rec["extra"]["pre_error"] = repr(e)
             if case_spec.get("plugin"):
                 _run_plugin(case_spec, rec)
             else:
